@@ -12,7 +12,8 @@
                [Variant "fixed": each preceded by rmtree(dir, ignore_errors) - leftovers of an interrupted sync]
      unpack    tar creates the files below .r.update one by one; a truncated archive yields a
                prefix and an error, a corrupt one an error
-     mv_old    rename(r, .r.old)                mv_new    rename(.r.update, r)
+     mv_old    rename(r, .r.old)                mv_new    rename(.r.update, r); fault "mvfail": it fails ->
+                                                          [Variant "fixed": rename(.r.old, r) back] SyncError
      etag_open / etag_write   r/.etag := validator of the served tarball (open "w", then write)
      cleanup   (atexit, runs on every graceful exit, success or SyncError) rmtree(.r.old), rmtree(.r.update)
    EVERY state is a crash point: Crash abandons the round where it is (no atexit cleanup) and the
@@ -54,12 +55,15 @@ MkFiles(s, p, fset, cid) ==
 Fs0 == LET s0 == [names |-> {}, inodes |-> <<>>, handles |-> {}]
        IN IF OldExists THEN Create(MkFiles(Create(s0, Base, DirObj).s, Base, Files, "old"), Etag, FileObj("old")).s ELSE s0
 
+\* besides the download/unpack faults of TarSync!Faults: the rename that moves the new tree in fails (EIO, ENOSPC, ...)
+MCFaults == Faults \cup {"mvfail"}
+
 VARIABLES fs, pc, round, fault, tb, prev, res, t0, installed
 vars == <<fs, pc, round, fault, tb, prev, res, t0, installed>>
 
 Tree == TreeView(fs, Base)
 Init == /\ fs = Fs0 /\ pc = "start" /\ round = 1 /\ tb = "none" /\ prev = "none" /\ res = "-"
-        /\ fault \in (IF MaxRounds = 1 THEN {"none"} ELSE Faults)
+        /\ fault \in (IF MaxRounds = 1 THEN {"none"} ELSE MCFaults)
         /\ t0 = TreeView(Fs0, Base) /\ installed = FALSE
 
 Keep(vs) == UNCHANGED vs
@@ -108,9 +112,14 @@ MvOld ==
   /\ pc = "mv_old" /\ Keep(<<tb, prev>>)
   /\ IF ~HasName(fs, Base) THEN fs' = fs /\ Goto("mv_new") /\ Keep(res)
      ELSE LET r == Rename(fs, Base, Old) IN IF r.ok THEN fs' = r.s /\ Goto("mv_new") /\ Keep(res) ELSE fs' = fs /\ Fail
+\* Variant "fixed": when moving the new tree in fails, the old one is moved back before SyncError is raised
+\* (otherwise the exit cleanup wipes .r.old - the only copy)
 MvNew ==
   /\ pc = "mv_new" /\ Keep(<<tb, prev>>)
-  /\ LET r == Rename(fs, Upd, Base) IN IF r.ok THEN fs' = r.s /\ Goto("etag_open") /\ Keep(res) ELSE fs' = fs /\ Fail
+  /\ LET r == IF fault = "mvfail" THEN R(fs, FALSE) ELSE Rename(fs, Upd, Base) IN
+     IF r.ok THEN fs' = r.s /\ Goto("etag_open") /\ Keep(res)
+     ELSE /\ Fail
+          /\ fs' = IF Variant = "fixed" /\ ~HasName(fs, Base) /\ HasName(fs, Old) THEN Rename(fs, Old, Base).s ELSE fs
 EtagOpen ==
   /\ pc = "etag_open" /\ Keep(<<tb, prev, res>>) /\ Goto("etag_write")
   /\ fs' = IF HasName(fs, Etag) THEN SetContentAt(fs, Etag, "empty", 0).s ELSE Create(fs, Etag, FileObj("empty")).s
@@ -127,7 +136,7 @@ InRound == Step /\ Keep(<<round, fault, t0>>) /\ installed' = (installed \/ Tree
 \* the next process: after a graceful exit (pc = "done") or after a power cut at ANY point
 NextRound ==
   /\ round < MaxRounds /\ round' = round + 1
-  /\ fault' \in (IF round + 1 = MaxRounds THEN {"none"} ELSE Faults)
+  /\ fault' \in (IF round + 1 = MaxRounds THEN {"none"} ELSE MCFaults)
   /\ pc' = "start" /\ tb' = "none" /\ prev' = "none" /\ res' = "-"
   /\ t0' = (IF ~HasName(fs, Base) /\ HasName(fs, Old) THEN TreeView(fs, Old) ELSE Tree)   \* the tree the user had last
   /\ Keep(<<fs, installed>>)
